@@ -7,9 +7,9 @@ CONSTANTS
   NH = 4
   MaxConns = 1
   MaxTicks = 99
-  MaxCI = 1
+  MaxCI = 0
   MaxReap = 0
-  Retries = 1
+  Retries = 0
   HoldCounted = TRUE
   CIAll = TRUE
 SPECIFICATION FairSpec
